@@ -477,7 +477,7 @@ class Check:
 
 
 @contextlib.contextmanager
-def client_logging(i):
+def client_logging(i, debug_log=False):
     """Process-level state that belongs to the CLIENT: how verbose it wants the library's logger to be.  Cycles through
     'as found', silenced (CRITICAL), DEBUG (to no handler of ours) and a debug log kept through pydrex.io.logfile_enable; what the library returns, refuses or writes must
     not depend on it.  Restored on exit."""
@@ -491,7 +491,7 @@ def client_logging(i):
                 log.setLevel(logging.CRITICAL)
             elif i % 4 == 2:
                 log.setLevel(logging.DEBUG)
-            elif i % 4 == 3:
+            elif i % 4 == 3 and debug_log:
                 # the client keeps a debug log through the library's own documented interface (a handler that listens at
                 # DEBUG on the library's logger; the stream form is the one the library documents for tests)
                 import io as _io
